@@ -165,11 +165,27 @@ def gamma2(tier, seed):
         out.append({"id": f"g2/{kind}/trailing", "doc": doc_of(["push", mk({"min": 1, "max": 2})]), "feature": feat})
         out.append({"id": f"g2/{kind}/leading", "doc": doc_of([mk(2), "ret"]), "feature": feat + ("_leading" if kind == "not" else "")})
         out.append({"id": f"g2/{kind}/after_optional", "doc": doc_of([{"push": {"times": {"min": 0, "max": 1}}}, mk({"min": 1, "max": 2}), "ret"]), "feature": feat + ("_leading" if kind == "not" else "")})
+    # one YAML node used twice (anchor/alias: the loader hands the SAME mapping object to the compiler twice, which
+    # yaml.safe_dump produces for a shared python object): both uses keep their repetition
+    for kind, mk, plain in bodies:
+        shared = mk(2)
+        out.append({"id": f"g2/{kind}/alias2", "doc": doc_of(["push", shared, "ret", shared]), "feature": f"times_{kind}_alias"})
+        shared = mk({"min": 1, "max": 2})
+        out.append({"id": f"g2/{kind}/alias_range", "doc": doc_of([shared, "ret", shared, "push"]), "feature": f"times_{kind}_alias" + ("_leading" if kind == "not" else "")})
+    # the bound arrives through a macro argument (times: <formal parameter>): same matcher as the literal bound
+    for kind, mk, plain in bodies[:4]:
+        for val, form in ((3, "p-cnt"), ({"min": 1, "max": 2}, {"min": "p-cnt", "max": 2}), ({"min": 0, "max": 2}, {"min": 0, "max": "p-cnt"})):
+            cnt = val if isinstance(val, int) else (val["min"] if form["min"] == "p-cnt" else val["max"])
+            macros = [{"name": "@rep", "args": ["p-cnt"], "pattern": [mk(form)]}]
+            doc = doc_of(["push", {"@rep": None, "p-cnt": cnt}, "ret"], extra={"macros": macros})
+            out.append({"id": f"g2/{kind}/macro_arg/{val}", "doc": doc, "pattern": ["push", mk(val), "ret"], "feature": f"times_{kind}_macro_arg"})
     # full-match flags do not interact with repetition
     out.append({"id": "g2/item/fm", "doc": doc_of(["push", {"mov": ["a"], "times": {"min": 0, "max": 2}}, "ret"], True, True), "feature": "times_item_sib"})
     for mf, of in ((True, False), (False, True)):
         out.append({"id": f"g2/item/fm/{ftag(mf,of)}", "doc": doc_of(["push", {"mov": {"times": 2}}, {"mov": ["a"], "times": {"min": 1, "max": 2}}, "ret"], mf, of), "feature": "times_item_flags"})
         out.append({"id": f"g2/or/fm/{ftag(mf,of)}", "doc": doc_of(["push", {"$or": ["mov", {"add": ["a"]}], "times": 2}, "ret"], mf, of), "feature": "times_or"})
+    for t in out:
+        t.setdefault("e2e_absent", True)
     return out
 
 
@@ -252,6 +268,15 @@ def gamma3(tier, seed):
                 out.append({"id": f"g3/op/{op}/{width}/{tail}", "doc": doc_of(pat, fm, fm), "feature": f"op_{op[1:]}"})
             pat = [{"mov": ["c", {op: kids}]}, "d"]
             out.append({"id": f"g3/op/{op}/{width}/after", "doc": doc_of(pat, fm, fm), "feature": f"op_{op[1:]}"})
+    # the documented <hex>h operand spelling inside operand-level operators: must behave exactly like the name 0x<hex>
+    for op in OPS3:
+        for kids in (["10h", "20h"], ["rbx", "3h"], ["ah", "b"]):
+            rew = [("0x" + o[:-1]) if o.endswith("h") and o != "b" else o for o in kids]
+            for of_ in (False, True):
+                pat = [{"mov": [{op: kids}, "c"]}, "d"]
+                out.append({"id": f"g3/op_hexh/{op}/{kids}/o{int(of_)}", "doc": doc_of(pat, False, of_), "pattern": [{"mov": [{op: rew}, "c"]}, "d"], "feature": "op_hexh_rewritten"})
+    pat = [{"mov": [{"$and_any_order": ["c", {"$or": ["10h", "20h"]}]}]}, "d"]
+    out.append({"id": "g3/op_hexh/nested", "doc": doc_of(pat), "pattern": [{"mov": [{"$and_any_order": ["c", {"$or": ["0x10", "0x20"]}]}]}, "d"], "feature": "op_hexh_rewritten"})
     for op1 in OPS3:
         for op2 in OPS3:
             pat = [{"mov": [{op1: ["x", {op2: ["y", "z"]}]}, "c"]}, "d"]
@@ -292,6 +317,8 @@ def gamma3(tier, seed):
     for i, t in enumerate(out):
         if i % 12 == 0 and "twin" not in t:
             with_twin(t, t["doc"]["pattern"])
+    for t in out:
+        t.setdefault("e2e_absent", True)
     return out
 
 
@@ -338,6 +365,8 @@ def gamma4(tier, seed):
         out.append({"id": f"g4/operand_group/{nm}", "doc": doc_of([{"mov": [{"$not": [arg]}, "c"]}, "call"]), "feature": "not_operand_group"})
     with_twin(out[1], out[1]["doc"]["pattern"])
     with_twin(out[2], out[2]["doc"]["pattern"])
+    for t in out:
+        t.setdefault("e2e_absent", True)
     return out
 
 
@@ -368,6 +397,21 @@ def gamma7(tier, seed):
     for nm, X in lead:
         out.append({"id": f"g7/lead/{nm}", "doc": doc_of([X, "call"]), "feature": "lead_" + nm, "lemmas": L})
         out.append({"id": f"g7/lead/{nm}/fm", "doc": doc_of([X, "call"], True, True), "feature": "lead_" + nm, "lemmas": L})
+    # trailing position: the match must END at the end of an instruction record whatever the last element is
+    trail = [
+        ("opt_item", {"mov": {"times": {"min": 0, "max": 2}}}),
+        ("opt_or1", {"$or": ["int3"], "times": {"min": 0, "max": 3}}),
+        ("rep_or1", {"$or": [{"mov": ["a"]}], "times": {"min": 1, "max": 2}}),
+        ("opt_and1", {"$and": ["int3"], "times": {"min": 0, "max": 2}}),
+        ("opt_anyorder1", {"$and_any_order": ["int3"], "times": {"min": 0, "max": 2}}),
+        ("opt_or", {"$or": ["mov", {"add": ["a"]}], "times": {"min": 0, "max": 2}}),
+        ("opt_and", {"$and": ["mov", "add"], "times": {"min": 0, "max": 1}}),
+        ("opt_not", {"$not": ["mov"], "times": {"min": 0, "max": 2}}),
+        ("or_ops", {"$or": [{"mov": ["a", "b"]}, "add"]}),
+    ]
+    for nm, X in trail:
+        out.append({"id": f"g7/trail/{nm}", "doc": doc_of(["ret", X]), "feature": "trail_" + nm, "lemmas": L})
+        out.append({"id": f"g7/only/{nm}", "doc": doc_of(["ret", X, "call"]), "feature": "inner_" + nm, "lemmas": L})
     out.append({"id": "g7/lead/not", "doc": doc_of([{"$not": ["mov"]}, "call"]), "feature": "not_leading", "lemmas": L})
     out.append({"id": "g7/lead/not_times2", "doc": doc_of([{"$not": ["mov"], "times": 2}, "call"]), "feature": "not_leading_repeated", "lemmas": L})
     out.append({"id": "g7/lead/not_times12", "doc": doc_of([{"$not": ["mov"], "times": {"min": 1, "max": 2}}]), "feature": "not_leading_repeated", "lemmas": L})
@@ -412,9 +456,16 @@ def gamma11(tier, seed):
         ["a", {"$not": ["b"]}],
         [{"$and_any_order": ["a", "b"]}, "a"],
         [{"mov": ["a"]}, {"$or": ["mov", "add"], "times": {"min": 1, "max": 2}}],
+        # optional parts: an occurrence may or may not contain them (the scan must report both kinds)
+        [{"pop": {"times": {"min": 0, "max": 1}}}, "ret"],
+        ["a", {"b": {"times": {"min": 0, "max": 2}}}, "a"],
+        [{"$or": ["pop", "push"], "times": {"min": 0, "max": 1}}, "ret"],
+        ["ret", {"$not": ["ret"], "times": {"min": 0, "max": 1}}],
     ]
     for i, p in enumerate(pats):
         out.append({"id": f"g11/{i}/{p}", "doc": doc_of(p), "feature": "scan", "lemmas": L})
+    for t in out:
+        t.setdefault("e2e_absent", True)
     return out
 
 
@@ -483,10 +534,13 @@ def gamma5(tier, seed):
         T(f"reg/{fam}/first_nosuffix", [{"mov": [nm]}, "ret"], [nm], {nm: keys}, "cap_register_first_nosuffix", domain="regs")
         T(f"reg/{fam}/as_in_tests", [{"add": [1, f"{nm}-1"]}, {"mov": [f"{nm}-1.16", f"{nm}-1.32"]}, "jmp"], [f"{nm}-1"], {f"{nm}-1": keys}, "cap_register_later_mid", domain="regs")
     # two different register captures of one family are independent (names with '-n' and with an inner dot)
-    for n1, n2 in (("&genreg-1", "&genreg-2"), ("&genreg.src", "&genreg.dst"), ("&indreg.a", "&indreg.b")):
+    # ... and base names that themselves contain a width token (only the trailing suffix selects the width)
+    for n1, n2 in (("&genreg-1", "&genreg-2"), ("&genreg.src", "&genreg.dst"), ("&indreg.a", "&indreg.b"), ("&genreg-16", "&genreg-64"), ("&indreg-32", "&indreg-8l")):
         keys = list("abcd") if "genreg" in n1 else ["s", "d"]
         T(f"reg/two_names/{n1}", [{"mov": [f"{n1}.64", f"{n2}.64"]}, {"push": [f"{n1}.32"]}, {"push": [f"{n2}.32"]}], [n1, n2], {n1: keys, n2: keys}, "cap_register_two_names", domain="regs", lemmas=("AEM",))
     # documented upper-case suffixes
+    for nm, keys in (("&genreg-16", list("abcd")), ("&basereg-64", ["bp"]), ("&genreg-8h", list("abcd"))):
+        T(f"reg/width_token_in_name/{nm}", [{"inc": [nm]}, {"push": [f"{nm}.64"]}, {"pop": [f"{nm}.16"]}, {"dec": [f"{nm}.32"]}], [nm], {nm: keys}, "cap_register_width_token_in_name", domain="regs", lemmas=("AEM",))
     T("reg/genreg/upper_8H", [{"mov": ["&genreg.64"]}, {"add": ["&genreg.8H"]}], ["&genreg"], {"&genreg": list("abcd")}, "cap_register_upper_suffix", domain="regs", lemmas=("AEM",), pattern=[{"mov": ["&genreg.64"]}, {"add": ["&genreg.8h"]}])
     T("reg/genreg/upper_8L", [{"mov": ["&genreg.64"]}, {"add": ["&genreg.8L"]}], ["&genreg"], {"&genreg": list("abcd")}, "cap_register_upper_suffix", domain="regs", lemmas=("AEM",), pattern=[{"mov": ["&genreg.64"]}, {"add": ["&genreg.8l"]}])
     # register capture inside a $deref
